@@ -76,8 +76,8 @@ theorem procK (c : Cfg) (e0 : Nat → Bool) (δ : Nat) (s : State) (g : Ghost) (
   rw [processData_eq, hkd]
   simp only
   generalize tryPut c { s with numTasks := s.numTasks.modify r.w (· - 1) } = T at hg' hl' hdl' hsw1 hF2 hc hp1
-  obtain ⟨a1, a2⟩ := SW_yield c T _ r b _ hsw1 hp1
-  obtain ⟨f1, f2, f3, f4⟩ := yieldItem_fields c T r b hio a1
+  obtain ⟨a1, a2⟩ := SW_yield c T _ r b _ hit hsw1 hp1
+  obtain ⟨f1, f2, f3, f4⟩ := yieldItem_fields c T r b hit hio a1
   have hpr := yieldItem_sameProto c T r b
   refine ⟨a1, g', dl', ?_, ?_, htk, ?_, ?_, ?_, ?_⟩
   · exact MidI_of_eq c _ _ g' none hg' hpr.sendIdx hpr.cyc hpr.status hpr.rcvdIdx hpr.info hpr.workers hpr.resQ
